@@ -296,10 +296,22 @@ func (ex *Exec) applyEffects(w *World, effects []string) {
 	for _, e := range effects {
 		switch {
 		case e == "bank":
-			ex.bankHavocAll(w)
+			supply := false
+			for _, e2 := range effects {
+				if e2 == "bank:supply" {
+					supply = true
+				}
+			}
+			if supply {
+				ex.bankHavocAll(w)
+			} else {
+				ex.bankHavocBalances(w)
+			}
 			w.Log = append(w.Log, "havoc bank")
 		case strings.HasPrefix(e, "store:"):
 			ex.havocModule(w, strings.TrimPrefix(e, "store:"))
+		case strings.HasPrefix(e, "table:"):
+			ex.tableHavoc(w, strings.TrimPrefix(e, "table:"))
 		}
 	}
 }
@@ -456,7 +468,20 @@ func (ex *Exec) builtin(fr *frame, b *ssa.Builtin, args []Val, common *ssa.CallC
 	case "append":
 		return ex.appendOp(args[0], args[1], common)
 	case "copy":
-		ex.abort("builtin copy")
+		// copy(dst, src) on materialised slices: element-wise, min(len) elements
+		dst, ok1 := ex.forceSliceVal(args[0])
+		src, ok2 := ex.forceSliceVal(args[1])
+		if !ok1 || !ok2 {
+			ex.abort("builtin copy on %T, %T", args[0], args[1])
+		}
+		n := dst.Len
+		if src.Len < n {
+			n = src.Len
+		}
+		for i := 0; i < n; i++ {
+			dst.Arr.Elems[dst.Off+i].V = copyDeep(src.Arr.Elems[src.Off+i].V)
+		}
+		return smt.IntC(int64(n))
 	case "panic":
 		ex.goPanic("explicit panic")
 	case "recover":
@@ -649,3 +674,18 @@ func modOfFn(fn *ssa.Function) string {
 }
 
 func sameModule(a, b *ssa.Function) bool { return modOfFn(a) == modOfFn(b) }
+
+// forceSliceVal materialises a slice value (bounded for symbolic collections).
+func (ex *Exec) forceSliceVal(v Val) (*SliceV, bool) {
+	v = ex.force(v)
+	switch x := v.(type) {
+	case *SliceV:
+		if x.Arr == nil {
+			return &SliceV{Arr: &ArrV{}, T: x.T}, true
+		}
+		return x, true
+	case *LazyV, *CoinsV:
+		return ex.forceSlice(x), true
+	}
+	return nil, false
+}
